@@ -122,6 +122,8 @@ func gen(t *rapid.T, maxFiles, maxVol int) scen.Case1 {
 	c.VerifyAll = rapid.Bool().Draw(t, "va")
 	c.DoubleCheck = rapid.Bool().Draw(t, "dc")
 	c.Bystanders = rapid.Bool().Draw(t, "by")
+	c.DirName = rapid.SampledFrom(scen.DirNames).Draw(t, "dirname")
+	c.Base = rapid.SampledFrom(scen.Bases1).Draw(t, "base")
 	return c
 }
 
